@@ -12,6 +12,7 @@ def run(tier, replay=None):
     rep.set("bounds", {"schemas": "kinds (every representation kind, enum valid + invalid values, sets) and catalogue families A and B",
                        "size_vectors": "ladder, <= %d per message" % cap,
                        "visits": "visit(message, cursor, v); visit(message, v); visit_children(group, cursor, v) for every top-level group; composites, enums and sets through on_field/on_type descent",
+                       "by_tag": "complete cursor traversals through get_by_tag<Tag>(view, wrapper(cursor)) for every wrapper-choice string of length <= %d, iteration styles cursor_range and split subranges" % (2 if tier == "quick" else 3),
                        "stop_points": "return true at the k-th bool callback for every k = 1..#callbacks",
                        "wire_block_length": "compiled, and +3 at every level (visiting under schema extension)",
                        "cells": [cxx.cell_name(c) for c in cells]})
@@ -33,13 +34,22 @@ def run(tier, replay=None):
     ct2 = pipeline.run(cb, cells, "vlib.checks._cat", "plan_visit", {"cap": max(2, cap // 2), "ext": 3, "ok_fields": fields},
                        deadline_s=600 if tier == "quick" else 3000)
     _cat.report_pipeline(rep, [], ct2, "visit-ext")
+    # get_by_tag with cursors == named cursor accessors: complete in-order traversals through get_by_tag<Tag>(view, cursor)
+    # with every wrapper-choice string (the drivers are C04's traversal drivers; the expected trace -- values, view
+    # addresses, cursor after every call -- is the model's trace for the named accessors)
+    tcells = cells[:1] if tier == "quick" else cells
+    tb = pipeline.prepare("c04t-" + tier, schemas, cxx.QUICK_CELLS if tier == "quick" else cxx.FOUR_CELLS, srcgen=("vlib.gen.traverse", "driver_source"))
+    tt = pipeline.run(tb, tcells, "vlib.checks._cat", "plan_traverse", {"cap": cap, "maxlen": 2 if tier == "quick" else 3, "only_tag": True},
+                      deadline_s=600 if tier == "quick" else 3000)
+    _cat.report_pipeline(rep, [], tt, "by-tag-traverse")
+    rep.set("by_tag_cursor_traversals", tt.cases)
     runs = kt.counters.get("runs", 0) + ct.counters.get("runs", 0) + ct2.counters.get("runs", 0)
     blocks = kt.counters.get("blocks", 0) + ct.counters.get("blocks", 0) + ct2.counters.get("blocks", 0)
     rep.set("states", blocks)          # event-log prefixes = one per stop point
     rep.set("transitions", runs)       # visits executed (complete + one per stop point)
     rep.set("traces_validated_against_impl", runs)
     rep.set("visited_images", kt.cases + ct.cases + ct2.cases)
-    rep.assume("get_by_tag/set_by_tag == named accessors is decided by the 'tag' drivers of C01 (writes, buffer after) and C02 (values, addresses)")
+    rep.assume("get_by_tag/set_by_tag without cursor == named accessors is decided by the 'tag' drivers of C01 (writes, buffer after) and C02 (values, addresses); with cursors by the by-tag traversals here")
     rep.assume("a group visited directly receives its name string instead of a tag (outside the property's sentence); only groups reached through their parent are compared")
     if runs == 0 and not rep.violations:
         rep.harness_error("vacuous")
